@@ -7,6 +7,7 @@ rc=0
 tools/sensitivity.py --skip-suite || rc=1
 for d in seeded/*/; do
   id=$(basename $d); p=${id:0:3}
+  cw=$(jq -r '.check_with // empty' $d/meta.json 2>/dev/null); [ -n "$cw" ] && p=$cw
   if grep -q "NOT REPORTED, by decision" $d/meta.json; then
     tools/sensitivity.py --patch $d/patch.diff --prop $p --skip-suite --expect-silent | grep -v "^SELFTEST" | head -1
   else
